@@ -142,7 +142,12 @@ class WithAttr(object):
         return analytic_jac(t, y) + 55.0
 
 
-OPS = [("jac", "A", "A"), ("jac", "B", "A"), ("jac", "A", "B"), ("jac", "B", "B"), ("hook", 1), ("hook", 2), ("unhook",), ("assign", 1), ("call",)]
+def J3(t, y, **kw):
+    return analytic_jac(t, y) + 55.0
+
+
+OPS = [("jac", "A", "A"), ("jac", "B", "A"), ("jac", "A", "B"), ("jac", "B", "B"), ("hook", 1), ("hook", 2), ("unhook",), ("assign", 1), ("call",),
+       ("setattr",), ("delattr",)]
 
 
 def build_rhs(cfg):
@@ -168,7 +173,11 @@ def step16(cfg, hist):
     de, U = _imports()
     r = Res()
     rhs, cnt = build_rhs(cfg)
-    attached = "attr" if cfg["attr"] else None      # reference model: one variable
+    # reference model: a hooked function wins; otherwise the source is chosen when the wrapper (re)initialises itself -- at the first jac request
+    # or at the first request after unhook -- from whether the user's function carries a jac attribute AT THAT MOMENT
+    hooked = None                 # None | 1 | 2
+    attr_present = bool(cfg["attr"])
+    source = None                 # None (not initialised) | "attr" | "fd"
     requests = 0
     case = dict(cfg, hist=[list(o) for o in hist])
     r.n = 1
@@ -180,6 +189,9 @@ def step16(cfg, hist):
                 y = Y_A if op[2] == "A" else Y_B
                 requests += 1
                 got = np.asarray(rhs.jac(t, y))
+                if hooked is None and source is None:
+                    source = "attr" if attr_present else "fd"
+                attached = hooked if hooked is not None else source
                 if last:
                     if attached in (1, 2):
                         want = (J1 if attached == 1 else J2)(t, y)
@@ -192,16 +204,22 @@ def step16(cfg, hist):
                         r.v("C16/rhs-jac-shape", "Jacobian layout", case, observed=list(got.shape), expected=list(want.shape))
                     elif exact and not np.array_equal(got, want):
                         r.v("C16/rhs-jac-not-user", "the wrapper returns the user-supplied Jacobian whenever one is attached", case,
-                            observed=dict(max_diff=float(np.max(np.abs(got - want))), attached=str(attached)), expected="exactly the attached function's value")
+                            observed=dict(max_diff=float(np.max(np.abs(got - want))), model=str((hooked, source, attr_present))), expected="exactly the attached function's value")
                     elif not exact and float(np.max(np.abs(got - want))) > 1e-6 * (1 + float(np.max(np.abs(want)))):
                         r.v("C16/rhs-jac-stale", "without a user Jacobian the right-hand side is differentiated at the requested time and state", case,
                             observed=dict(max_diff=float(np.max(np.abs(got - want))), t=t), expected="analytic Jacobian at this (t, y)")
             elif op[0] == "hook":
-                rhs.hook_jacobian_call(J1 if op[1] == 1 else J2); attached = op[1]
+                rhs.hook_jacobian_call(J1 if op[1] == 1 else J2); hooked = op[1]
             elif op[0] == "unhook":
-                rhs.unhook_jacobian_call(); attached = "attr" if cfg["attr"] else None
+                rhs.unhook_jacobian_call(); hooked = None; source = None
             elif op[0] == "assign":
-                rhs.jac = J1; attached = 1
+                rhs.jac = J1; hooked = 1
+            elif op[0] == "setattr":
+                rhs.rhs.jac = J3; attr_present = True          # attach by attribute on the user's own function
+            elif op[0] == "delattr":
+                if hasattr(rhs.rhs, "jac"):
+                    del rhs.rhs.jac
+                attr_present = False
             elif op[0] == "call":
                 got = np.asarray(rhs(T_B, Y_B))
                 if last and not np.array_equal(got, user_rhs(T_B, Y_B)):
@@ -223,10 +241,10 @@ def step16(cfg, hist):
             continue
         else:
             h.update(("%s=%r" % (k, v)).encode())
-    r.ret = h.hexdigest() + str(attached)
+    r.ret = h.hexdigest() + str((hooked, source, attr_present))
     r.out(("rhs", cfg["attr"], tuple(o[0] for o in hist)))
     if len(hist) == 3 and hash(str(case)) % 37 == 0:
-        r.samples.append(dict(section="rhs", history=case["hist"], attached=str(attached), njev=int(rhs.njev), nfev=int(rhs.nfev)))
+        r.samples.append(dict(section="rhs", history=case["hist"], model=str((hooked, source, attr_present)), njev=int(rhs.njev), nfev=int(rhs.nfev)))
     return r
 
 
@@ -234,7 +252,7 @@ def run(ctx):
     depth = 4 if ctx.quick else 5
     ctx.rule = ("(a) full product 5 functions (non-square linear, matrix-shaped linear, scalar, smooth vector, smooth matrix-valued) x evaluation points with components in "
                 "{1e-8, 0.3, 5, 1e4} x base_order {2,3,5,7} x flat on/off x tolerance; (b) E1 breadth-first search to depth %d over {jac(t_a|t_b, y_a|y_b), hook(J1), hook(J2), unhook, "
-                "rhs.jac = J1, plain call} on a DiffRHS (with and without a jac attribute on the user's function), reference model = one variable 'attached'; "
+                "rhs.jac = J1, plain call, set / delete a jac attribute on the user's function} on a DiffRHS (with and without a jac attribute on the user's function), reference model = one variable 'attached'; "
                 "distinct = distinct (section, function/op history) classes" % depth)
     ctx.assumptions += ["linear maps: round-off of differencing only, 1e5*eps*|A||x|; smooth: 100*(rtol|J| + atol) plus the round-off floor 1e5*eps*|f||x| of differencing",
                         "without a user Jacobian the DiffRHS answer must be within 1e-6 relative of the analytic Jacobian at the requested (t, y)"]
